@@ -25,7 +25,7 @@ def harness(name, props, kind, what, tier='quick', bound='none', args=(), timeou
     HARNESSES.append(dict(name=name, props=props, kind=kind, what=what, tier=tier, bound=bound, args=list(args), timeout=timeout, heavy=heavy))
 
 
-_BUILT = ['C01', 'C02', 'C03', 'C04', 'C05', 'C06', 'C07', 'C08', 'C09', 'C11', 'C12', 'C13', 'C14', 'C15', 'C16', 'C17']
+_BUILT = ['C01', 'C02', 'C03', 'C04', 'C05', 'C06', 'C07', 'C08', 'C09', 'C10', 'C11', 'C12', 'C13', 'C14', 'C15', 'C16', 'C17']
 for _p in ['C01', 'C02', 'C03', 'C04', 'C05', 'C06', 'C07', 'C08', 'C09', 'C10', 'C11', 'C12', 'C13', 'C14', 'C15', 'C16', 'C17']:
     if _p in _BUILT:
         prop(_p, level='proof', level_text='Verus discharges the contracts of the real functions serving this property for all inputs (under construction: unit list grows)',
@@ -263,3 +263,24 @@ harness('h_setters::c14_tcp_calc_checksum_ipv6_guard', ['C14'], 'complete (all p
 harness('h_setters::c14_icmpv6_calc_checksum_guard', ['C14'], 'complete (all payload lens <= isize::MAX x 8 message types; add_slice stubbed)', 'Icmpv6Type::calc_checksum: Ok <=> len <= 2^32-1-8; exact error', tier='quick', bound='none', timeout=300, heavy=False)
 harness('h_setters::c14_udp_with_checksum_guard', ['C14'], 'complete (all payload lens <= isize::MAX; add_slice stubbed)', 'UdpHeader::with_ipv4_checksum/with_ipv6_checksum: Ok <=> len <= 65527; length = 8+len; exact error', tier='quick', bound='none', timeout=300, heavy=False)
 harness('h_setters::c14_udp_calc_checksum_guard', ['C14'], 'complete (all payload lens <= isize::MAX; add_slice stubbed)', 'UdpHeader::calc_checksum_ipv4/ipv6(_raw): Ok <=> len <= 65527 resp. 2^32-1-8; exact error', tier='quick', bound='none', timeout=300, heavy=False)
+
+# ---- C09 K cross-checks + C10 (agent k-builder); protocol-level harnesses stub the accumulator by an ideal never-wrapping sum ----
+harness('h_builder::c09_k_helpers_add32_state', ['C09'], 'complete (loop free, all u32 states x 4 bytes)', 'u32 add_2bytes/add_4bytes = end-around-carry add from any state; ones_complement = !fold; no_zero maps 0->0xffff', tier='quick', bound='none', timeout=300)
+harness('h_builder::c09_k_helpers_add64_2', ['C09'], 'complete (loop free, all u64 states)', 'u64 add_2bytes from any state preserves the 16-bit digit sum incl. wrap', tier='thorough', bound='none', timeout=900)
+harness('h_builder::c09_k_helpers_add64_eac', ['C09'], 'complete (loop free)', 'u64 add_4bytes/add_8bytes == 64-bit one\'s complement add (state+value mod 2^64 + carry)', tier='quick', bound='none', timeout=300)
+harness('h_builder::c09_k_helpers_conv64', ['C09'], 'complete (all u64)', 'u64 ones_complement == !fold(digit sum); with_no_zero maps 0->0xffff', tier='quick', bound='none', timeout=300)
+harness('h_builder::c09_k_helpers_fixed_adders', ['C09'], 'complete for the call sequences (8 symbolic octets)', 'Sum16BitWords add_2+add_4+add_2 and add_8bytes == ref_rfc1071; add_16bytes == 2 x add_8bytes', tier='quick', bound='8 B', timeout=400)
+harness('h_builder::c09_k_helpers_split', ['C09'], 'bounded (8 symbolic octets, 9 (len, even split) shapes)', 'Sum16BitWords add_slice(a).add_slice(b) == RFC 1071 BE reference, memory image and to_be, no-zero variant', tier='thorough', bound='8 B, 9 shapes', timeout=900)
+harness('h_builder::c09_k_helpers_split_u32', ['C09'], 'bounded (8 B, 9 shapes)', 'same for u32_16bit_word', tier='thorough', bound='8 B, 9 shapes', timeout=900)
+harness('h_builder::c09_k_helpers_split_u64', ['C09'], 'bounded (8 B, 9 shapes)', 'same for u64_16bit_word', tier='thorough', bound='8 B, 9 shapes', timeout=900)
+harness('h_builder::c09_k_proto_ipv4_header', ['C09'], 'bounded (options <= 12 B; helpers stubbed by ideal accumulator)', 'Ipv4Header::calc_header_checksum == ref over RFC 791 header with zero checksum, all fields symbolic', tier='quick', bound='options <= 12 B', timeout=600)
+harness('h_builder::c09_k_proto_udp_ipv4', ['C09'], 'bounded (payload <= 5 B; helpers stubbed)', 'UdpHeader calc_checksum_ipv4[_raw], with_ipv4_checksum == ref over RFC 768 pseudo hdr+hdr+payload; never 0; stored checksum verifies', tier='thorough', bound='payload <= 5 B', timeout=900)
+harness('h_builder::c09_k_proto_udp_ipv6', ['C09'], 'bounded (payload <= 5 B; helpers stubbed)', 'UdpHeader calc_checksum_ipv6[_raw], with_ipv6_checksum == ref over RFC 8200 pseudo hdr', tier='thorough', bound='payload <= 5 B', timeout=900)
+harness('h_builder::c09_k_proto_tcp_ipv4', ['C09'], 'bounded (options <= 8 B, payload <= 5 B; helpers stubbed)', 'TcpHeader calc_checksum_ipv4[_raw] == ref, all fields/flags symbolic', tier='thorough', bound='options <= 8 B, payload <= 5 B', timeout=1200)
+harness('h_builder::c09_k_proto_tcp_ipv6', ['C09'], 'bounded (options <= 8 B, payload <= 5 B; helpers stubbed)', 'TcpHeader calc_checksum_ipv6[_raw] == ref', tier='thorough', bound='options <= 8 B, payload <= 5 B', timeout=1400)
+harness('h_builder::c09_k_proto_icmpv4', ['C09'], 'bounded (payload <= 5 B; helpers stubbed)', 'Icmpv4Type::calc_checksum / Icmpv4Header::with_checksum/update_checksum == ref, every variant hand-encoded per RFC 792', tier='thorough', bound='payload <= 5 B', timeout=900)
+harness('h_builder::c09_k_proto_icmpv6', ['C09'], 'bounded (payload <= 5 B; helpers stubbed)', 'Icmpv6Type::calc_checksum / Icmpv6Header::with_checksum/update_checksum == ref incl. pseudo hdr (58, msg len), every variant', tier='thorough', bound='payload <= 5 B', timeout=900)
+harness('h_builder::c09_k_proto_icmpv6_validator', ['C09'], 'bounded (message 8..=20 B all bytes symbolic; helpers stubbed)', 'Icmpv6Slice::is_checksum_valid <=> whole sum incl. stored checksum folds to 0xffff', tier='thorough', bound='20 B', timeout=900)
+harness('h_builder::c09_k_proto_igmp', ['C09'], 'bounded (payload <= 5 B; helpers stubbed)', 'IgmpHeader::calc_checksum/with_checksum == ref, all 7 variants', tier='quick', bound='payload <= 5 B', timeout=500)
+harness('h_builder::c10_size_arp', ['C10'], 'bounded (address lengths 0..=8)', 'size() of ethernet2|+VLAN(s)|linux_sll + ARP == 14/16 + 4*vlans + 8+2h+2p', tier='quick', bound='addr len <= 8', timeout=600)
+harness('h_builder::c10_limits_eth_ipv4_udp', ['C10', 'C14'], 'complete for n in limit+1..=limit+2 (error side only)', 'eth+ipv4+udp payload above 65535-20-8: Err(PayloadLen) with real limit, nothing above L2 emitted, size() exact', tier='thorough', bound='error side only', timeout=1800)
